@@ -31,13 +31,14 @@ git checkout -q -- .
 OUT=/verif/seeded/$PROP-${SEED_TAG:-}$NAME
 mkdir -p "$OUT"
 cp "$SD/patch.diff" "$OUT/patch.diff"; cp "$SD/demo.rs" "$OUT/demo.rs"; cp "$SD/meta.json" "$OUT/meta.json" 2>/dev/null
-# run checks against /repo
-cd /repo || exit 2
+# run checks against /repo (or a private copy: SEEDTEST_REPO / SEEDTEST_VERIF, see bgreseed.sh)
+RP=${SEEDTEST_REPO:-/repo}; VF=${SEEDTEST_VERIF:-/verif}
+cd $RP || exit 2
 if ! git diff --quiet; then echo "refusing: /repo has uncommitted changes"; exit 2; fi
 git apply "$SD/patch.diff" || { echo "  patch does not apply to /repo"; exit 3; }
 detected=""
 for id in $CHECKS; do
-  out=$(cd /verif && timeout 1200 ./check "$id" quick 2>&1); rc=$?
+  out=$(cd $VF && timeout 1200 ./check "$id" quick 2>&1); rc=$?
   line=$(echo "$out" | grep -E "check=" | head -1 | cut -c1-260)
   echo "  check $id -> exit $rc $line"
   [ $rc -eq 1 ] && detected="$detected $id:$(echo "$line" | sed -E 's/.*check=([^ ]+).*/\1/')"
